@@ -221,7 +221,15 @@ impl Prog {
     }
     pub fn text(&self) -> String {
         match self {
-            Prog::Stmts(xs) => xs.iter().map(|e| e.render()).collect::<Vec<_>>().join(" ; "),
+            Prog::Stmts(xs) => {
+                let mut s = xs.iter().map(|e| e.render()).collect::<Vec<_>>().join(" ; ");
+                // a sixth of the programs (by content) are written with a trailing semicolon: it separates
+                // nothing, the program's value is still the value of its last statement
+                if !xs.is_empty() && crate::prng::h64(s.as_bytes()) % 6 == 0 {
+                    s.push_str(" ;");
+                }
+                s
+            }
             Prog::Chain(operands, ops) => {
                 let mut s = operands[0].operand();
                 for (i, op) in ops.iter().enumerate() {
